@@ -615,6 +615,66 @@ def _msgrec_rule(chk, prog):
     chk.floor(rule, 5, n)
 
 
+def _parkroot_rule(chk, prog):
+    """A fiber parked on a THREADED channel is referenced only from the channel's pending queue, which lives outside
+    every VM heap and is never traced.  Suspended tasks are not otherwise marked, so the registration itself must root
+    the fiber (janet_thread_chan_cb / close drop the root).  Every path that parks on a possibly-threaded channel must
+    therefore pass janet_gcroot - whatever kind of wait (plain or select clause) it is."""
+    rule = "C08-PARKROOT"
+    chk.rule(rule, "every path that queues the current fiber on a threaded channel's pending list roots the fiber")
+    tu = prog.tus["ev.c"]
+    n = 0
+    for fname in ("janet_channel_push_with_lock", "janet_channel_pop_with_lock"):
+        fn = tu.funcs.get(fname)
+        if fn is None:
+            raise AnalysisBroken("%s not found" % fname)
+        chk.analysed(fn)
+        flagvars = set(x.name for x in fn.nodes if x.k == "vardecl" and x.kids and strip_casts(x.kids[0]).k == "call"
+                       and strip_casts(x.kids[0]).callee == "janet_chan_is_threaded")
+        if not flagvars:
+            raise AnalysisBroken("%s: no local holding janet_chan_is_threaded(channel)" % fname)
+
+        def transfer(st, x):
+            if x.k == "call" and x.callee == "janet_q_push" and x.args and \
+                    any(y.k == "mem" and y.field in ("read_pending", "write_pending") for y in x.args[0].walk()):
+                return st | {"parked"}
+            if x.k == "call" and x.callee == "janet_gcroot":
+                return st | {"rooted"}
+            return st
+
+        def edge(st, blk, succ, cond, truth):
+            c = flow.compare_of(cond, truth)
+            if c is None or c[2] is not None:
+                return st
+            l = strip_casts(c[0])
+            if is_ref(l) and l.name in flagvars:
+                want = "thr" if c[1] == "!=" else "nothr"
+                other = "nothr" if want == "thr" else "thr"
+                if other in st:
+                    return None
+                return st | {want}
+            return st
+        IN, OUT, T = flow.forward_paths(fn, frozenset(), transfer, edge=edge)
+        for b, kind in flow.exits(fn):
+            if kind != "return" or b.id not in OUT:
+                continue
+            S = OUT[b.id]
+            if not any("parked" in ps for ps in S):
+                continue
+            n += 1
+            chk.instance(rule)
+            bad = [ps for ps in S if "parked" in ps and "nothr" not in ps and "rooted" not in ps]
+            last = b.elems[-1] if b.elems else None
+            if bad:
+                chk.violation(rule, "ev.c", fname, "park-without-root", last.loc if last is not None else fn.loc,
+                              "%s can return having queued the fiber on the pending list of a channel that may be threaded without "
+                              "janet_gcroot: nothing else keeps a parked fiber alive, the next collection in this thread frees it and "
+                              "the hand-off from the other thread resumes freed memory" % fname)
+            else:
+                chk.ok(rule, "%s: parking return at %s roots the fiber whenever the channel is threaded" % (fname, last.loc if last is not None else "?"))
+    chk.floor(rule, 2, n)
+
+
 def run(chk):   # noqa
     prog = Program.load("default")
     S = Summaries(prog)
@@ -624,3 +684,4 @@ def run(chk):   # noqa
     _atomic_rule(chk, prog)
     _refpair_rule(chk, prog)
     _msgrec_rule(chk, prog)
+    _parkroot_rule(chk, prog)
